@@ -14,7 +14,7 @@ Open Scope N_scope.
 Definition l_old (b : N) : verdict := Ok [1] [] [].
 Definition l_new (b : N) : verdict := Ok [b] [] [].
 Definition l_ws : list (wop N) := [mkW 1 (1, 26) [] 1 false; mkW 1 (1, 1) [] 2 false].
-Definition l_rs := resync_db l_new (mkSw false false) false [] (replay 0 l_old [] l_ws).
+Definition l_rs := resync_db l_new (mkSw false false false) false [] (replay 0 l_old [] l_ws).
 Definition l_doc : doc N := hd (empty_doc 0) (fst l_rs).
 Definition l_leaf : leaf N := nth 1 (d_leaves l_doc) (mkLeaf (0, 0) 0 false []).
 
@@ -28,7 +28,7 @@ Lemma resync_leaf_channels_statement_fails_unfixed :
   ~ (forall (body : Type) (sync_new : body -> verdict) (db : list (doc body)) (regen : bool) (alloc : list N),
        Forall2 (fun d d' => live_b d = true -> forall l, In l (d_leaves d') -> is_cur d' l = false ->
                             seteq (leaf_chans d' l) (vchans (sync_new (l_body l))))
-         db (fst (resync_db sync_new (mkSw false false) regen alloc db))).
+         db (fst (resync_db sync_new (mkSw false false false) regen alloc db))).
 Proof.
   intros H. specialize (H N l_new (replay 0 l_old [] l_ws) false []).
   vm_compute in H. inversion H as [|a b l l' Hab _]; subst.
@@ -38,8 +38,8 @@ Qed.
 
 (* with the repair the same input is rewritten and the leaf gets channel B *)
 Example resync_leaf_channels_repaired :
-  snd (resync_db l_new (mkSw true true) false [] (replay 0 l_old [] l_ws)) = 1 /\
-  map (fun l => (l_rev l, l_chans l)) (d_leaves (hd (empty_doc 0) (fst (resync_db l_new (mkSw true true) false [] (replay 0 l_old [] l_ws)))))
+  snd (resync_db l_new (mkSw true true false) false [] (replay 0 l_old [] l_ws)) = 1 /\
+  map (fun l => (l_rev l, l_chans l)) (d_leaves (hd (empty_doc 0) (fst (resync_db l_new (mkSw true true false) false [] (replay 0 l_old [] l_ws)))))
   = [((1, 26), [1]); ((1, 1), [2])].
 Proof. vm_compute. split; reflexivity. Qed.
 
@@ -51,7 +51,7 @@ Definition g_old (b : N) : verdict := if b =? 0 then Ok [] [] [] else Ok [b] [(P
 Definition g_new (b : N) : verdict := if b =? 0 then Ok [] [] [] else Ok [b] [] [].
 Definition g_ws : list (wop N) := [mkW 1 (1, 1) [] 5 false].
 Definition g_ps : princs := warm (replay 0 g_old [] g_ws) (mkPs [mkUser 1 [] [] None None] []).
-Definition g_run (ifixed : bool) := run g_new (mkSw true true) ifixed true [100] (replay 0 g_old [] g_ws) g_ps.
+Definition g_run (ifixed : bool) := run g_new (mkSw true true false) ifixed true [100] (replay 0 g_old [] g_ws) g_ps.
 Definition g_user (ifixed : bool) : user := hd (mkUser 0 [] [] None None) (ps_users (snd (g_run ifixed))).
 
 Lemma resync_regen_principals_refuted :
@@ -82,7 +82,7 @@ Proof. vm_compute. split; reflexivity. Qed.
 Definition t_old (b : N) : verdict := Ok [b] [(PU 1, b)] [].
 Definition t_new (b : N) : verdict := Ok [b + 10] [] [].
 Definition t_ws : list (wop N) := [mkW 1 (1, 1) [] 5 false; mkW 1 (2, 1) [(1, 1)] 7 true].
-Definition t_rs := fst (resync_db t_new (mkSw true true) false [] (replay 0 t_old [] t_ws)).
+Definition t_rs := fst (resync_db t_new (mkSw true true false) false [] (replay 0 t_old [] t_ws)).
 
 Lemma resync_tombstone_eq_fresh_refuted :
   accepts 0 t_old t_ws /\ accepts 0 t_new t_ws /\
@@ -104,7 +104,7 @@ Definition j_old (b : N) : verdict := Ok [b] [] [].
 Definition j_new (b : N) : verdict := if b =? 0 then Ok [] [] [] else Reject [(1, 7)].
 Definition j_ws : list (wop N) := [mkW 1 (1, 1) [] 5 false].
 Definition j_ps : princs := mkPs [mkUser 1 [] [] None None] [mkRole 7 [9] None].
-Definition j_run (rej : bool) := run j_new (mkSw true rej) true false [] (replay 0 j_old [] j_ws) j_ps.
+Definition j_run (rej : bool) := run j_new (mkSw true rej false) true false [] (replay 0 j_old [] j_ws) j_ps.
 
 Lemma resync_rejected_roles_refuted :
   replay 0 j_new [] j_ws = [] /\                                        (* the write path refuses the revision *)
@@ -131,7 +131,8 @@ Proof. vm_compute. reflexivity. Qed.
 
 (* ------------------------------------------------------------------------------------------------
    6. Found while deepening C18 (run model, Run.v; signature resync-reset-after-interrupted-run-principals-stale,
-   replayed on the real code by harness/db/verif_c18_run_test.go).  invalidatePrincipals invalidates the
+   replayed on the real code by harness/db/verif_c18_run_test.go; REPAIRED in /repo by commit bc044df, switch
+   sw_inval = Switch.always_inval_fixed).  In the code as found (sw_inval = false) invalidatePrincipals invalidates the
    principals only when docs_changed of THIS run id is positive.  A run that is stopped after it has rewritten the
    documents, and is then started again with `reset` (or with a different collection set, or after a crash that
    lost the counter), finds nothing left to change: it reports completed with docs_changed = 0 and never
@@ -143,13 +144,14 @@ Definition q_new (b : N) : verdict := Ok [b + 10] [(PU 1, b + 20)] [].
 Definition q_col (id : N) : N := 0.
 Definition q_ps : princs := warm (@nil (doc N)) (mkPs [mkUser 1 [2] [] None None] []).
 Definition q_st0 : rst N :=
-  rrun 0 q_col (fun _ => q_old) [0] (mkSw true true) (rinit [] q_ps [])
+  rrun 0 q_col (fun _ => q_old) [0] (mkSw true true false) (rinit [] q_ps [])
        [OWrite (mkW 1 (1, 1) [] 3 false); OWrite (mkW 2 (1, 1) [] 5 false); OLoad 1].
 Definition q_ops (reset : bool) : list (rop N) :=
   [OStart false false []; OVisit 0 0; OVisit 0 0; OStop;          (* every document processed, then stopped *)
    OStart reset false []; OVisit 0 0; OVisit 0 0; OFinish [];     (* started again: completes *)
    OLoad 1].
-Definition q_st (reset : bool) : rst N := rrun 0 q_col (fun _ => q_new) [0] (mkSw true true) q_st0 (q_ops reset).
+Definition q_stx (inval reset : bool) : rst N := rrun 0 q_col (fun _ => q_new) [0] (mkSw true true inval) q_st0 (q_ops reset).
+Definition q_st (reset : bool) : rst N := q_stx false reset.
 Definition q_user (reset : bool) : user := hd (mkUser 0 [] [] None None) (ps_users (r_ps (q_st reset))).
 
 Lemma resync_reset_after_interrupted_run_principals_stale :
@@ -167,4 +169,13 @@ Proof. vm_compute. repeat split; reflexivity. Qed.
 Example resync_resumed_run_principals_fresh :
   r_state (q_st false) = MCompleted /\ r_pchanged (q_st false) = 2 /\ r_log (q_st false) = [[0]] /\ r_dirty (q_st false) = false /\
   effective (r_docs (q_st false)) (r_ps (q_st false)) (q_user false) = [2; 23; 25].
+Proof. vm_compute. repeat split; reflexivity. Qed.
+
+(* with the repair (invalidate after every completed run) the same schedule ends with the principals invalidated:
+   the user holds the new function's grants (C18_completed_run_invalidates) *)
+Example resync_reset_after_interrupted_run_repaired :
+  r_state (q_stx true true) = MCompleted /\ r_pchanged (q_stx true true) = 0 /\ r_log (q_stx true true) = [[0]] /\
+  r_dirty (q_stx true true) = false /\
+  effective (r_docs (q_stx true true)) (r_ps (q_stx true true))
+            (hd (mkUser 0 [] [] None None) (ps_users (r_ps (q_stx true true)))) = [2; 23; 25].
 Proof. vm_compute. repeat split; reflexivity. Qed.
